@@ -70,6 +70,7 @@ func c05R1(p *core.Program, r *core.Report, pl *pipeline) {
 		r.Anchor(rule, "New method of the context type of pkg/gengo")
 		return
 	}
+	newFn = flatten(p, newFn) // a single-exit result variable shown as the returns it stands for
 	loop, gen := genLoop(pl)
 	if loop == nil {
 		r.Anchor(rule, "loop over the generators parameter in the per-package function")
